@@ -196,7 +196,7 @@ TimeoutAt(i) ==
 FiresAtEnd ==
     \A j \in Open(N) :
        IF Known(E[j].v) /\ VC(E[j].v).tmo > 0 /\ E[j].t + VC(E[j].v).tmo < Ln.t
-            => \E x \in (j + 1)..N : E[x].k = "Ctx" /\ SameInv(E[x], E[j]) /\ E[x].how = "deadline" THEN TRUE
+            => \E x \in (j + 1)..N : E[x].k = "Ctx" /\ SameInv(E[x], E[j]) THEN TRUE     \* (by its deadline, or earlier by a rejecting sibling)
        ELSE Report("P_X10e_Fires", E[j].m, "the timeout of a running validator passed and its context was not cancelled",
                    [v |-> E[j].v, got |-> Ln.t - E[j].t, want |-> VC(E[j].v).tmo, how |-> "missing"])
 
